@@ -827,6 +827,17 @@ func CheckSlashServe(run *report.Run, n int) error {
 		if i < len(directed) {
 			h = directed[i]
 			run.Count("serve-level-slash:structured-shared-prefix-histories")
+			// on these few histories the answers to p and p/ are also held against the MODEL of the
+			// patterns the container registers (root and root/), through both entry points: a root path
+			// that net/http redirects although the container should have registered it shows up here
+			if e, v, err := one(h); err != nil {
+				return err
+			} else if v.bad() && v.Known == "" && bad < 3 {
+				bad++
+				viol := violationOf("counterexample", e, v)
+				viol.What = "C14 (root path and root path + '/' through the ServeMux): " + viol.What
+				run.AddViolation(viol)
+			}
 		} else {
 			h = GenHistory(r, []string{"curly", "jsr"}[i%2], st)
 		}
